@@ -9,7 +9,15 @@
 // the real writer's bytes depend on, the item's own bytes), the stream is
 // optionally produced a second time by ToBytesStep (event Whole) and carried
 // through a pack (event Carry), and is then read item by item (event R: kind,
-// every field of the object read, the cursor = length - Available()).
+// every field of the object read, the cursor = length - Available()); objects the
+// reader handed back are projected again after the later reads (event Again).
+//
+// Generator `retain`: one history = several streams.  All of them are encoded first
+// (by every encoder entry point: the writers into a DataOutputX, ToBytesStep,
+// TxRecord.ToBytes, SetProfile of the carrier packs), each output is KEPT by the
+// driver as it was handed back (event Keep), and only then are the kept outputs
+// looked at (event Peek: what they hold now) and decoded straight from the kept
+// memory, in a random order; finally the decoded objects are projected once more.
 package c08
 
 import (
@@ -540,9 +548,17 @@ func fieldByName(it *item, name string) (fld, bool) {
 
 // ------------------------------------------------------------ one history
 
+// a carrier is a pack that holds a profile: hold = SetProfile on a new pack (the pack keeps what ToBytesStep
+// handed back), take = the pack is written, read back, and the steps blob taken out.  Between the two the pack
+// waits (in the real agent: in a queue) while other profiles are encoded.
 type carrier struct {
 	name string
-	run  func(r *rand.Rand, steps []step.Step, bypass *int) (out []byte, info string)
+	hold func(r *rand.Rand, steps []step.Step) interface{}
+	take func(p interface{}, bypass *int) (out []byte, info string)
+}
+
+func (c *carrier) run(r *rand.Rand, steps []step.Step, bypass *int) ([]byte, string) {
+	return c.take(c.hold(r, steps), bypass)
 }
 
 func headerFill(r *rand.Rand, p pack.Pack) {
@@ -556,20 +572,22 @@ func headerFill(r *rand.Rand, p pack.Pack) {
 }
 
 var carriers = []carrier{
-	{"ProfileStepSplitPack", func(r *rand.Rand, steps []step.Step, _ *int) ([]byte, string) {
+	{"ProfileStepSplitPack", func(r *rand.Rand, steps []step.Step) interface{} {
 		p := pack.NewProfileStepSplitPack()
 		headerFill(r, p)
 		p.Txid = randInt(r, 64)
 		p.Inx = int(randInt(r, 32))
 		p.SetProfile(steps)
+		return p
+	}, func(p interface{}, _ *int) ([]byte, string) {
 		// the pack factory (lang/pack, C03) does not know this type: its own reader is called directly
-		in := gio.NewDataInputX(pack.ToBytesPack(p))
+		in := gio.NewDataInputX(pack.ToBytesPack(p.(*pack.ProfileStepSplitPack)))
 		in.ReadShort()
 		q := pack.NewProfileStepSplitPack()
 		q.Read(in)
 		return q.Steps, ""
 	}},
-	{"ErrorSnapPack1", func(r *rand.Rand, steps []step.Step, _ *int) ([]byte, string) {
+	{"ErrorSnapPack1", func(r *rand.Rand, steps []step.Step) interface{} {
 		p := pack.NewErrorSnapPack1()
 		headerFill(r, p)
 		p.Seq = randInt(r, 64)
@@ -581,17 +599,21 @@ var carriers = []carrier{
 		p.SetStack(st)
 		p.AppendType = byte(r.Intn(256))
 		p.AppendHash = int32(randInt(r, 32))
-		q := pack.ToPack(pack.ToBytesPack(p))
+		return p
+	}, func(p interface{}, _ *int) ([]byte, string) {
+		q := pack.ToPack(pack.ToBytesPack(p.(*pack.ErrorSnapPack1)))
 		return q.(*pack.ErrorSnapPack1).Profile, ""
 	}},
-	{"ProfilePack", func(r *rand.Rand, steps []step.Step, bypass *int) ([]byte, string) {
+	{"ProfilePack", func(r *rand.Rand, steps []step.Step) interface{} {
 		p := pack.NewProfilePack()
 		headerFill(r, p)
 		tx := &item{def: txKind, p: txKind.mk()}
 		fill(r, tx, false)
 		p.Transaction = tx.p.(*service.TxRecord)
 		p.SetProfile(steps)
-		b := pack.ToBytesPack(p)
+		return p
+	}, func(p interface{}, bypass *int) ([]byte, string) {
+		b := pack.ToBytesPack(p.(*pack.ProfilePack))
 		// the pack's own reader first (lang/pack belongs to C03: ProfilePack.Read reads a
 		// Service where a TxRecord was written); if it cannot read its own bytes the blob is
 		// taken out with the documented layout: type, header, transaction record, steps blob
@@ -671,23 +693,253 @@ func (h *hist) stream(r *rand.Rand, items []*item, whole bool, car *carrier, ext
 		data = append([]byte(nil), cb...)
 	}
 	in := gio.NewDataInputX(data)
+	var objs []interface{}
 	for i, it := range items {
 		var got interface{}
 		if msg := core.Guard(func() { got = readItem(it.def.fam, in) }); msg != "" {
 			h.t.Emit(core.Ev{"ev": "Panic", "in": "read", "index": i + 1, "kind": it.def.name, "msg": msg})
 			return
 		}
-		rk := typeName(got)
-		rr := obj{}
-		if rk != "nil" {
-			rr = projR(got)
-		}
-		h.t.Emit(core.Ev{"ev": "R", "kind": rk, "r": rr, "cur": len(data) - int(in.Available())})
+		h.t.Emit(core.Ev{"ev": "R", "kind": typeName(got), "r": projAny(got), "cur": len(data) - int(in.Available())})
+		objs = append(objs, got)
+	}
+	// the objects the reader handed back, looked at again after all the later reads (a few of them)
+	if !h.again(r, objs, 6) {
+		return
 	}
 	h.t.Emit(core.Ev{"ev": "End", "n": len(items), "len": len(data)})
 	if len(items) > 1 {
 		h.c.Sample(obj{"gen": h.gen, "case": h.cas, "kinds": kinds, "stream_bytes": len(data)})
 	}
+}
+
+func projAny(got interface{}) obj {
+	if typeName(got) == "nil" {
+		return obj{}
+	}
+	return projR(got)
+}
+
+// again looks at (at most max of) the objects the reader handed back so far in this history once more: event Again
+// j (the running number of the object in the history) kind r.
+func (h *hist) again(r *rand.Rand, objs []interface{}, max int) bool {
+	idx := r.Perm(len(objs))
+	if len(idx) > max {
+		idx = idx[:max]
+	}
+	sort.Ints(idx)
+	for _, j := range idx {
+		var rr obj
+		if msg := core.Guard(func() { rr = projAny(objs[j]) }); msg != "" {
+			h.t.Emit(core.Ev{"ev": "Panic", "in": "again", "index": j + 1, "msg": msg})
+			return false
+		}
+		h.t.Emit(core.Ev{"ev": "Again", "j": j + 1, "kind": typeName(objs[j]), "r": rr})
+	}
+	return true
+}
+
+// ------------------------------------------------------------ kept outputs
+
+// keptStream is one encoded stream with everything the code handed back for it; the caller (this driver) keeps
+// all of it, untouched and uncopied, while other streams are encoded and decoded.
+type keptStream struct {
+	items []*item
+	evs   []core.Ev        // the events of its encoding (emitted by the history in stream order)
+	out   *gio.DataOutputX // the output the items were written into
+	whole []byte           // the slice ToBytesStep returned (step streams)
+	parts [][]byte         // the slices TxRecord.ToBytes returned, one per record (tx streams)
+	car   *carrier         // the pack SetProfile stored the stream in (step streams, optional)
+	pk    interface{}
+	views []string
+	fail  bool
+}
+
+// encodeKept runs every encoder entry point on the items of ks and keeps what they hand back.
+func (ks *keptStream) encodeKept(r *rand.Rand, c *core.Ctx) {
+	emit := func(e core.Ev) { ks.evs = append(ks.evs, e) }
+	ks.out = gio.NewDataOutputX()
+	prev := 0
+	fam := ks.items[0].def.fam
+	for _, it := range ks.items {
+		w := it.projW()
+		if msg := core.Guard(func() { writeItem(ks.out, it) }); msg != "" {
+			emit(core.Ev{"ev": "Panic", "in": "write", "kind": it.def.name, "msg": msg})
+			ks.fail = true
+			return
+		}
+		all := ks.out.ToByteArray()
+		b := core.Cp(all[prev:])
+		prev = len(all)
+		base, _ := encode(it)
+		emit(core.Ev{"ev": "W", "fam": it.def.fam, "kind": it.def.name, "tag": tagOf(it), "w": w,
+			"carried": carried(it, base), "bytes": b, "size": ks.out.Size()})
+		c.Count(fmt.Sprintf("%s|%x", it.def.name, []byte(b)), len(b) >= 2)
+	}
+	ks.views = []string{"DataOutputX"}
+	switch fam {
+	case "step":
+		var steps []step.Step
+		for _, it := range ks.items {
+			steps = append(steps, it.p.(step.Step))
+		}
+		if msg := core.Guard(func() { ks.whole = step.ToBytesStep(steps) }); msg != "" {
+			emit(core.Ev{"ev": "Panic", "in": "ToBytesStep", "msg": msg})
+			ks.fail = true
+			return
+		}
+		emit(core.Ev{"ev": "Whole", "via": "ToBytesStep", "bytes": core.Cp(ks.whole)})
+		ks.views = append(ks.views, "ToBytesStep")
+		if ks.car != nil {
+			if msg := core.Guard(func() { ks.pk = ks.car.hold(r, steps) }); msg != "" {
+				emit(core.Ev{"ev": "Panic", "in": "SetProfile " + ks.car.name, "msg": msg})
+				ks.fail = true
+				return
+			}
+			ks.views = append(ks.views, "pack")
+		}
+	case "tx":
+		for _, it := range ks.items {
+			var b []byte
+			if msg := core.Guard(func() { b = it.p.(*service.TxRecord).ToBytes() }); msg != "" {
+				emit(core.Ev{"ev": "Panic", "in": "TxRecord.ToBytes", "msg": msg})
+				ks.fail = true
+				return
+			}
+			ks.parts = append(ks.parts, b)
+		}
+		emit(core.Ev{"ev": "Whole", "via": "TxRecord.ToBytes", "bytes": core.Cp(bytes.Join(ks.parts, nil))})
+		ks.views = append(ks.views, "TxRecord.ToBytes")
+	}
+}
+
+// view: what the kept output holds NOW
+func (ks *keptStream) view(v string, bypass *int) (b []byte, info string, msg string) {
+	msg = core.Guard(func() {
+		switch v {
+		case "DataOutputX":
+			b = ks.out.ToByteArray()
+		case "ToBytesStep":
+			b = ks.whole
+		case "TxRecord.ToBytes":
+			b = bytes.Join(ks.parts, nil)
+		case "pack":
+			b, info = ks.car.take(ks.pk, bypass)
+		}
+	})
+	return
+}
+
+// retain: several streams are encoded one after the other (or at the same time by one goroutine each), every
+// output kept by the caller; only then are the kept outputs looked at and decoded, in a random order, straight from
+// the kept memory; at the end the objects the reader handed back are looked at once more.
+func (h *hist) retain(r *rand.Rand, streams []*keptStream, par bool, extra core.Ev) {
+	h.t.Reset(h.gen, h.cas, extra)
+	if par {
+		done := make(chan int, len(streams))
+		rs := make([]*rand.Rand, len(streams))
+		for k := range streams {
+			rs[k] = rand.New(rand.NewSource(r.Int63()))
+		}
+		for k := range streams {
+			go func(k int) {
+				defer func() { done <- k }()
+				if msg := core.Guard(func() { streams[k].encodeKept(rs[k], h.c) }); msg != "" {
+					streams[k].evs = append(streams[k].evs, core.Ev{"ev": "Panic", "in": "encode", "msg": msg})
+					streams[k].fail = true
+				}
+			}(k)
+		}
+		for range streams {
+			<-done
+		}
+	}
+	total := 0
+	for k, ks := range streams {
+		if !par {
+			ks.encodeKept(r, h.c)
+		}
+		for _, e := range ks.evs {
+			h.t.Emit(e)
+		}
+		if ks.fail {
+			return
+		}
+		h.t.Emit(core.Ev{"ev": "Keep", "h": k + 1})
+		total += len(ks.items)
+	}
+	type look struct {
+		k int
+		v string
+	}
+	var looks []look
+	for k, ks := range streams {
+		for _, v := range ks.views {
+			looks = append(looks, look{k, v})
+		}
+	}
+	r.Shuffle(len(looks), func(i, j int) { looks[i], looks[j] = looks[j], looks[i] })
+	// the encoder goes on serving other callers while the kept outputs are decoded: further encodings whose
+	// outputs nobody looks at (stimulus only; like the probes of `carried` they are not events)
+	noise := func() {
+		core.Guard(func() {
+			var st []step.Step
+			for i, n := 0, 1+r.Intn(6); i < n; i++ {
+				st = append(st, newItem(r, stepKinds[r.Intn(len(stepKinds))], false).p.(step.Step))
+			}
+			step.ToBytesStep(st)
+			newItem(r, txKind, false).p.(*service.TxRecord).ToBytes()
+			if r.Intn(2) == 0 {
+				carriers[r.Intn(len(carriers))].hold(r, st)
+			}
+		})
+	}
+	var objs []interface{}
+	for _, lk := range looks {
+		if r.Intn(2) == 0 {
+			noise()
+		}
+		ks := streams[lk.k]
+		data, info, msg := ks.view(lk.v, h.bypass)
+		if msg != "" {
+			h.t.Emit(core.Ev{"ev": "Panic", "in": "view " + lk.v, "msg": msg})
+			return
+		}
+		via := lk.v
+		if via == "pack" {
+			via = "pack " + ks.car.name
+		}
+		h.t.Emit(core.Ev{"ev": "Peek", "h": lk.k + 1, "via": via, "bytes": core.Cp(data), "info": info})
+		in := gio.NewDataInputX(data) // the kept memory itself, not a copy
+		for i, it := range ks.items {
+			var got interface{}
+			if lk.v == "TxRecord.ToBytes" {
+				// TxRecord.ToObject on the kept slice of this record: it gets exactly the record's own bytes and
+				// shows no cursor (event RO)
+				if msg := core.Guard(func() { got = service.NewTxRecord().ToObject(ks.parts[i]) }); msg != "" {
+					h.t.Emit(core.Ev{"ev": "Panic", "in": "ToObject", "index": i + 1, "kind": it.def.name, "msg": msg})
+					return
+				}
+				h.t.Emit(core.Ev{"ev": "RO", "kind": typeName(got), "r": projAny(got)})
+				objs = append(objs, got)
+				continue
+			}
+			if msg := core.Guard(func() { got = readItem(it.def.fam, in) }); msg != "" {
+				h.t.Emit(core.Ev{"ev": "Panic", "in": "read", "index": i + 1, "kind": it.def.name, "msg": msg})
+				return
+			}
+			h.t.Emit(core.Ev{"ev": "R", "kind": typeName(got), "r": projAny(got), "cur": len(data) - int(in.Available())})
+			objs = append(objs, got)
+			if r.Intn(8) == 0 {
+				noise()
+			}
+		}
+		h.t.Emit(core.Ev{"ev": "End", "n": len(ks.items), "len": len(data)})
+	}
+	if !h.again(r, objs, 40) {
+		return
+	}
+	h.c.Sample(obj{"gen": h.gen, "case": h.cas, "kept_streams": len(streams), "items": total, "looks": len(looks), "parallel": par})
 }
 
 // ------------------------------------------------------------ generators
@@ -1121,6 +1373,81 @@ func Run(c *core.Ctx) error {
 		}
 		h := &hist{c: c, t: rnd, gen: "carrier", cas: cas, bypass: &bypass}
 		h.stream(r, items, true, &carriers[cas%len(carriers)], nil)
+	}
+	// ---- retain: 2..6 streams encoded before any is decoded; everything handed back is kept and looked at later
+	keep := c.Trace("c08_keep", "Trace_Profile")
+	nret := c.Pick(24, 400)
+	for i := 0; i < nret; i++ {
+		// the histories encoded by concurrent goroutines (cas%4 == 3) come last in the trace: what they show may depend
+		// on the schedule, and the runner looks at the rejections in trace order
+		cas := i/3*4 + i%3
+		if i >= nret/4*3 {
+			cas = (i-nret/4*3)*4 + 3
+		}
+		if !c.Want("retain", cas) {
+			continue
+		}
+		r := c.Rng("retain", cas)
+		nk := 2 + r.Intn(c.Pick(4, 7))
+		par := cas%4 == 3
+		var streams []*keptStream
+		var shape []*item // cas%4 == 1: every stream has the kinds of the first (equal or nearly equal lengths)
+		for k := 0; k < nk; k++ {
+			ks := &keptStream{}
+			fam := "step"
+			if cas%4 != 0 {
+				fam = []string{"step", "step", "step", "step", "step", "tx", "tx", "service", "bare"}[r.Intn(9)]
+			}
+			n := 1 + r.Intn(12)
+			if r.Intn(4) == 0 {
+				n = 1
+			}
+			if cas%4 == 1 && shape != nil {
+				for _, it := range shape {
+					ks.items = append(ks.items, newItem(r, it.def, false))
+				}
+			} else {
+				for i := 0; i < n; i++ {
+					// cas%4 == 2: the same object may stand in several streams, or twice in one
+					if cas%4 == 2 && r.Intn(3) == 0 {
+						var pool []*item
+						for _, e := range streams {
+							pool = append(pool, e.items...)
+						}
+						pool = append(pool, ks.items...)
+						var same []*item
+						for _, e := range pool {
+							if e.def.fam == fam {
+								same = append(same, e)
+							}
+						}
+						if len(same) > 0 {
+							ks.items = append(ks.items, same[r.Intn(len(same))])
+							continue
+						}
+					}
+					switch fam {
+					case "step":
+						ks.items = append(ks.items, newItem(r, stepKinds[r.Intn(len(stepKinds))], false))
+					case "tx":
+						ks.items = append(ks.items, newItem(r, txKind, false))
+					case "service":
+						ks.items = append(ks.items, newItem(r, serviceKinds[r.Intn(3)], false))
+					default:
+						ks.items = append(ks.items, newItem(r, bareKinds[0], false))
+					}
+				}
+				if shape == nil {
+					shape = ks.items
+				}
+			}
+			if ks.items[0].def.fam == "step" && r.Intn(2) == 0 {
+				ks.car = &carriers[r.Intn(len(carriers))]
+			}
+			streams = append(streams, ks)
+		}
+		h := &hist{c: c, t: keep, gen: "retain", cas: cas, bypass: &bypass}
+		h.retain(r, streams, par, core.Ev{"streams": nk, "parallel": par, "nondet": par})
 	}
 	c.SetExtra("profilepack_read_bypassed", bypass)
 	return nil
